@@ -5,10 +5,32 @@ import os, sys, shutil, tempfile, importlib, json
 from . import front, values
 
 
-def run_catalogue(prop, only=None, verbose=True):
-    from . import check
+def run_catalogue(prop, only=None, verbose=True, jobs=4):
+    """runs the catalogue entries of one property, `jobs` at a time (each in its own process with its own scratch copy)"""
     cat = importlib.import_module('contracts.mutants').CATALOGUE
     items = [m for m in cat if m['prop'] == prop and (only is None or m['id'] in only)]
+    if jobs <= 1 or len(items) <= 1:
+        return _run_items(prop, items, verbose)
+    import subprocess
+    from concurrent.futures import ThreadPoolExecutor
+    verif = os.path.dirname(os.path.dirname(os.path.abspath(__file__)))
+
+    def one(m):
+        env = dict(os.environ, VERIF_REPO=front.REPO, PYVC_MUT_JOBS='1')
+        r = subprocess.run([sys.executable, '-m', 'pyvc.mutants', prop, m['id']], capture_output=True, text=True, cwd=verif, env=env)
+        for line in r.stdout.splitlines():
+            if line.startswith('{'):
+                try:
+                    return json.loads(line)
+                except ValueError:
+                    pass
+        return {'id': m['id'], 'status': 'WRONG', 'failed_obligations': [], 'problems': ['mutant run crashed: ' + (r.stderr or r.stdout)[-400:]], 'fallbacks': []}
+    with ThreadPoolExecutor(min(jobs, len(items))) as ex:
+        return list(ex.map(one, items))
+
+
+def _run_items(prop, items, verbose=True):
+    from . import check
     results = []
     orig_repo = front.REPO
     for m in items:
@@ -50,14 +72,17 @@ def run_catalogue(prop, only=None, verbose=True):
             front.REPO = orig_repo
             front._cache.clear()
             shutil.rmtree(d, ignore_errors=True)
-        if verbose:
-            print(json.dumps(results[-1])[:400])
+        if verbose and os.environ.get('PYVC_MUT_JOBS') == '1':
+            print(json.dumps(results[-1]))
     return results
 
 
 if __name__ == '__main__':
     sys.path.insert(0, os.path.dirname(os.path.dirname(os.path.abspath(__file__))))
-    res = run_catalogue(sys.argv[1], set(sys.argv[2:]) or None)
+    res = run_catalogue(sys.argv[1], set(sys.argv[2:]) or None, jobs=int(os.environ.get('PYVC_MUT_JOBS', '4')))
+    if len(sys.argv) <= 2 or os.environ.get('PYVC_MUT_JOBS') != '1':
+        for r in res:
+            print(json.dumps(r)[:400])
     bad = [r for r in res if r['status'] == 'WRONG']
     print('%d mutants/controls, %d wrong' % (len(res), len(bad)))
     sys.exit(3 if bad else 0)
